@@ -13,6 +13,7 @@ import (
 	"fmt"
 	"io"
 	"io/fs"
+	"maps"
 	"mime/multipart"
 	"net"
 	"net/http"
@@ -1409,6 +1410,10 @@ func (c *DefaultCtx) Render(name string, bind any, layouts ...string) error {
 	// renderExtensions writes the view bindings into the map)
 	if m, ok := bind.(Map); bind == nil || (ok && m == nil) {
 		bind = make(Map)
+	} else if ok {
+		// renderExtensions adds the view bindings and locals of this request: it gets a copy,
+		// the handler's map may be shared between requests
+		bind = maps.Clone(m)
 	}
 
 	// Pass-locals-to-views, bind, appListKeys
